@@ -381,3 +381,180 @@ def visible_end(frec, api, flags):
     if concat_mode(frec, api, flags):
         return len(frec["data"])
     return frec["units"][0][1]
+
+
+# ----------------------------------------------------------------------------------------------------------------
+# crafted damage: a field is changed AND the CRC32 that covers it is recomputed, so that the checks behind the CRC
+# (which a plain bit flip never reaches) are exercised
+# ----------------------------------------------------------------------------------------------------------------
+
+def enc_vli(v):
+    out = bytearray()
+    while v >= 0x80:
+        out.append((v & 0x7F) | 0x80)
+        v >>= 7
+    out.append(v)
+    return bytes(out)
+
+
+def _segs_of_stream(frec, k):
+    s, e, _ = frec["units"][k]
+    return [(a, b, n) for (a, b, n) in frec["segs"] if s <= a and b <= e]
+
+
+def crafted_variants(frec, rng):
+    """Returns [(description, field, damaged bytes)] for a .xz file record; every variant differs from the original in a
+    non-payload field and has all covering CRC32s recomputed. Streams other than the first are left alone."""
+    if frec["fmt"] != "xz":
+        return []
+    d = frec["data"]
+    out = []
+    segs = _segs_of_stream(frec, 0)
+    byname = {}
+    for (a, b, n) in segs:
+        byname.setdefault(n, []).append((a, b))
+    s0, e0, _ = frec["units"][0]
+
+    def fix_footer(buf):
+        f = e0 - 12
+        buf[f:f + 4] = struct.pack("<I", zlib.crc32(bytes(buf[f + 4:f + 10])))
+
+    def fix_header(buf):
+        buf[s0 + 8:s0 + 12] = struct.pack("<I", zlib.crc32(bytes(buf[s0 + 6:s0 + 8])))
+
+    def fix_index(buf, ix0, crc_at):
+        buf[crc_at:crc_at + 4] = struct.pack("<I", zlib.crc32(bytes(buf[ix0:crc_at])))
+
+    f = e0 - 12
+    check = frec["checks"][0]
+    # C1 Backward Size +/- 4
+    for delta in (1, -1):
+        v = struct.unpack("<I", d[f + 4:f + 8])[0] + delta
+        if v >= 0:
+            b = bytearray(d)
+            b[f + 4:f + 8] = struct.pack("<I", v)
+            fix_footer(b)
+            out.append(("backward-size%+d(words), footer CRC fixed" % delta, "ftr.bsize", bytes(b)))
+    # C2 footer check type changed
+    for newc in sorted({(check + 1) % 16, 0 if check else 1, 4 if check != 4 else 10}):
+        if newc != check:
+            b = bytearray(d)
+            b[f + 9] = newc
+            fix_footer(b)
+            out.append(("footer check id %d->%d, CRC fixed" % (check, newc), "ftr.flags", bytes(b)))
+    # C3 header check type changed (footer untouched)
+    for newc in sorted({(check + 1) % 16, (check + 2) % 16}):
+        b = bytearray(d)
+        b[s0 + 7] = newc
+        fix_header(b)
+        out.append(("header check id %d->%d, CRC fixed" % (check, newc), "hdr.flags", bytes(b)))
+    # C3b reserved bits set in header / footer flags
+    b = bytearray(d); b[s0 + 7] |= 0x10; fix_header(b)
+    out.append(("header flags reserved bit, CRC fixed", "hdr.flags", bytes(b)))
+    b = bytearray(d); b[f + 8] = 1; fix_footer(b)
+    out.append(("footer flags first byte nonzero, CRC fixed", "ftr.flags", bytes(b)))
+    # Index
+    (ix0, _), = byname["idx.indicator"]
+    (crc_at, _), = byname["idx.crc32"]
+    (c0, c1), = byname["idx.count"]
+    recs = []
+    if "idx.records" in byname:
+        (r0, r1), = byname["idx.records"]
+        p = r0
+        while p < r1:
+            u, p2 = vli(d, p, r1)
+            c, p3 = vli(d, p2, r1)
+            recs.append((u, c))
+            p = p3
+
+    def with_records(newrecs, newcount=None):
+        """Rebuild the Index field in place if it keeps its length; returns None otherwise."""
+        body = b"\0" + enc_vli(len(newrecs) if newcount is None else newcount) + b"".join(enc_vli(u) + enc_vli(c) for (u, c) in newrecs)
+        pad = (-len(body)) % 4
+        body += b"\0" * pad
+        if len(body) != crc_at - ix0:
+            return None
+        b = bytearray(d)
+        b[ix0:crc_at] = body
+        fix_index(b, ix0, crc_at)
+        return bytes(b)
+
+    if len(recs) >= 2:
+        for i in range(len(recs) - 1):
+            if recs[i] != recs[i + 1]:
+                sw = list(recs)
+                sw[i], sw[i + 1] = sw[i + 1], sw[i]
+                v = with_records(sw)
+                if v is not None:
+                    out.append(("index records %d and %d swapped, CRC fixed" % (i, i + 1), "idx.records", v))
+                break
+        # sums preserved: move one byte of uncompressed size from one record to another
+        (u0, c0v), (u1, c1v) = recs[0], recs[1]
+        if c1v >= 1:
+            v = with_records([(u0, c0v + 1), (u1, c1v - 1)] + recs[2:])
+            if v is not None:
+                out.append(("index uncompressed sizes +1/-1 (sums kept), CRC fixed", "idx.records", v))
+        if u1 > 8:
+            v = with_records([(u0 + 4, c0v), (u1 - 4, c1v)] + recs[2:])
+            if v is not None:
+                out.append(("index unpadded sizes +4/-4 (sums kept), CRC fixed", "idx.records", v))
+    if recs:
+        u, c = recs[0]
+        for (nu, nc, what) in ((u + 1, c, "unpadded+1"), (u, c + 1, "uncompressed+1"), (u - 1, c, "unpadded-1"), (u ^ 4, c, "unpadded^4")):
+            v = with_records([(nu, nc)] + recs[1:])
+            if v is not None and nu > 0:
+                out.append(("index record 0 %s, CRC fixed" % what, "idx.records", v))
+    # count field changed (same encoded length)
+    for nc in (len(recs) + 1, len(recs) - 1):
+        if 0 <= nc < 128 and len(recs) < 128:
+            v = with_records(recs, newcount=nc)
+            if v is not None:
+                out.append(("index count %d->%d, CRC fixed" % (len(recs), nc), "idx.count", v))
+    # non-minimal VLI for the count (needs a spare padding byte)
+    if "idx.pad" in byname and len(recs) < 128:
+        body = b"\0" + bytes([len(recs) | 0x80, 0x00]) + b"".join(enc_vli(u) + enc_vli(c) for (u, c) in recs)
+        pad = (-len(body)) % 4
+        body += b"\0" * pad
+        if len(body) == crc_at - ix0:
+            b = bytearray(d); b[ix0:crc_at] = body; fix_index(b, ix0, crc_at)
+            out.append(("index count as non-minimal VLI, CRC fixed", "idx.count", bytes(b)))
+    # index padding byte non-zero
+    if "idx.pad" in byname:
+        (p0, p1), = byname["idx.pad"]
+        b = bytearray(d); b[p1 - 1] = 1; fix_index(b, ix0, crc_at)
+        out.append(("index padding byte non-zero, CRC fixed", "idx.pad", bytes(b)))
+    # Block Headers
+    hdr_starts = byname.get("blk.hdr.size", [])
+    hdr_crcs = byname.get("blk.hdr.crc32", [])
+    for bi, ((h0, _), (hc0, hc1)) in enumerate(zip(hdr_starts, hdr_crcs)):
+        if bi >= 2:
+            break
+
+        def fix_bh(buf):
+            buf[hc0:hc1] = struct.pack("<I", zlib.crc32(bytes(buf[h0:hc0])))
+        for (a, bnd, n) in segs:
+            if not (h0 <= a < hc0):
+                continue
+            if n == "blk.hdr.pad":
+                b = bytearray(d); b[bnd - 1] = 1; fix_bh(b)
+                out.append(("block %d header padding non-zero, CRC fixed" % bi, n, bytes(b)))
+            elif n == "blk.hdr.flags":
+                b = bytearray(d); b[a] |= 0x04; fix_bh(b)
+                out.append(("block %d header reserved flag bit, CRC fixed" % bi, n, bytes(b)))
+                b = bytearray(d); b[a] = (b[a] & ~3) | ((b[a] + 1) & 3); fix_bh(b)
+                out.append(("block %d header filter count changed, CRC fixed" % bi, n, bytes(b)))
+            elif n in ("blk.hdr.csize", "blk.hdr.usize"):
+                val, _ = vli(d, a, bnd)
+                for nv in (val + 1, val - 1):
+                    ev = enc_vli(nv) if nv >= 0 else None
+                    if ev is not None and len(ev) == bnd - a and (nv > 0 or n == "blk.hdr.usize"):
+                        b = bytearray(d); b[a:bnd] = ev; fix_bh(b)
+                        out.append(("block %d %s %d->%d, CRC fixed" % (bi, n, val, nv), n, bytes(b)))
+            elif n == "blk.hdr.filters":
+                # last byte of the filter flags = last properties byte (LZMA2 dictionary size byte for a plain chain)
+                b = bytearray(d); b[bnd - 1] = 41; fix_bh(b)
+                out.append(("block %d last filter property byte = 41 (invalid dict size), CRC fixed" % bi, n, bytes(b)))
+                b = bytearray(d); b[a] = 0x22; fix_bh(b)
+                out.append(("block %d first filter id = 0x22 (unknown), CRC fixed" % bi, n, bytes(b)))
+    # keep only real changes
+    return [(w, fld, v) for (w, fld, v) in out if v != d]
